@@ -38,6 +38,12 @@ FIRST_LOOK = {  # recorded when the seed was first run, before any rule was touc
  "C35-7": "caught", "C35-8": "caught", "C35-9": "caught",
  "C36-7": "missed", "C36-8": "missed", "C36-9": "caught",
  "C10-7": "caught", "C10-8": "missed", "C10-9": "caught (by R10g, written from the same agent's side observation before the seed was run)",
+ # round 4
+ "C14-10": "unknown-shape alarm only", "C14-11": "caught", "C14-12": "unknown-shape alarm only",
+ "C30-10": "caught", "C30-11": "missed", "C30-12": "missed",
+ "C08-10": "missed", "C08-11": "caught", "C08-12": "caught",
+ "C05-10": "caught", "C05-11": "missed", "C05-12": "caught",
+ "C10-10": "missed", "C10-11": "missed", "C10-12": "unknown-shape alarm only (a false one: R10e took `Pos{}` in reset() for state; corrected)",
 }
 def key(d):
     m = re.match(r".*/C(\d+)-(\d+)$", d); return (int(m.group(1)), int(m.group(2)))
